@@ -117,3 +117,93 @@ package ast
 //@   ensures  [prefix;C07] n1 != nil && n2 != nil && typeis[NodeList](n1) ==> len(r.(NodeList)) >= len(n1.(NodeList)) && forall k int :: 0 <= k && k < len(n1.(NodeList)) ==> same(r.(NodeList)[k], n1.(NodeList)[k])
 //@   ensures  [within] old((n1 != nil ==> within(n1)) && (n2 != nil ==> within(n2))) && r != nil ==> within(r)
 //@   assigns  ite(n1 != nil && n2 != nil && typeis[NodeList](n1), cells(n1.(NodeList), len(n1.(NodeList)), cap(n1.(NodeList))), nothing()), parsley.GhostSpare
+
+//@ -- ---------------------------------------------------------------- evaluation of a non-terminal
+//@ -- the value of a non-terminal is its own interpreter applied to exactly this node (C13); the hypothesis of C04
+//@ -- "an interpreter for every non-terminal" is the precondition (without one the method panics by design)
+//@ func (n *NonTerminalNode) Value(userCtx interface{}) (v interface{}, err parsley.Error)
+//@   props C04,C13
+//@   logs parsley.Interpreter.Eval
+//@   requires n != nil && n.interpreter != nil
+//@   ensures  [own-interpreter;C13] ncalls() == 1 && callarg[parsley.Interpreter](1, 0) == old(n.interpreter) && callarg[interface{}](1, 1) == userCtx && callarg[parsley.NonTerminalNode](1, 2) == parsley.NonTerminalNode(n)
+//@   ensures  [result;C13] v == callres[interface{}](1, 0) && same(err, callres[parsley.Error](1, 1))
+//@   ensures  err != nil ==> err.Pos() >= 0
+//@   assigns  fields[parsley.Node]()
+
+//@ -- ---------------------------------------------------------------- SetReaderPos (RightTrim's write into nodes)
+//@ -- The callbacks handed to SetReaderPos move an end position forward inside the window of the active parser,
+//@ -- write only their own captured variables and keep their own invariant (cloinv) on them.
+//@ functype ast.rpcallback(self func(parsley.Pos) parsley.Pos, pos parsley.Pos) (np parsley.Pos)
+//@   requires cloinv(self) && parsley.GhostLo <= pos && pos <= parsley.GhostHi
+//@   ensures  [moved;C10] pos <= np && np <= parsley.GhostHi
+//@   ensures  [keeps] cloinv(self)
+//@   assigns  captures(self)
+
+//@ -- a node's own end position is replaced by the callback's answer for it; nothing else of the node changes (C07)
+//@ func (t *TerminalNode) SetReaderPos(f func(parsley.Pos) parsley.Pos)
+//@   props C07,C10
+//@   logs ast.rpcallback
+//@   requires t != nil && f != nil && cloinv(f) && parsley.GhostLo <= t.readerPos && t.readerPos <= parsley.GhostHi
+//@   ensures  [once;C10] ncalls() == 1 && callarg[parsley.Pos](1, 0) == old(t.readerPos) && t.readerPos == callres[parsley.Pos](1, 0)
+//@   ensures  [moved;C10] old(t.readerPos) <= t.readerPos && t.readerPos <= parsley.GhostHi && cloinv(f)
+//@   ensures  [others] othersKept()
+//@   assigns  t.readerPos, captures(f)
+//@ callee f(pos parsley.Pos) (np parsley.Pos)
+//@   include ast.rpcallback
+
+//@ func (n *NonTerminalNode) SetReaderPos(f func(parsley.Pos) parsley.Pos)
+//@   props C07,C10
+//@   logs ast.rpcallback
+//@   requires n != nil && f != nil && cloinv(f) && parsley.GhostLo <= n.readerPos && n.readerPos <= parsley.GhostHi
+//@   ensures  [once;C10] ncalls() == 1 && callarg[parsley.Pos](1, 0) == old(n.readerPos) && n.readerPos == callres[parsley.Pos](1, 0)
+//@   ensures  [moved;C10] old(n.readerPos) <= n.readerPos && n.readerPos <= parsley.GhostHi && cloinv(f)
+//@   ensures  [others] othersKept()
+//@   assigns  n.readerPos, captures(f)
+//@ callee f(pos parsley.Pos) (np parsley.Pos)
+//@   include ast.rpcallback
+
+//@ -- what SetReaderPos needs of, and keeps for, a node: well-formed and ending inside the active window
+//@ -- moving ends forward inside the window keeps every well-formed node well-formed and inside the window
+//@ pure func othersKept() bool = forall m parsley.Node :: old(m != nil && parsley.NodeOK(m) && within(m)) ==> parsley.NodeOK(m) && within(m)
+//@ pure func rpOK(n ReaderPosSetter) bool = typeis[parsley.Node](n) ==> parsley.NodeOK(n.(parsley.Node)) && within(n.(parsley.Node))
+//@ -- (assumption on node types defined outside this repository: a well-formed node can have its end moved;
+//@ --  for the node types of the repository this is lemma settable_repo below)
+//@ axiom [settable] forall n parsley.Node :: n != nil && parsley.NodeOK(n) ==> typeis[EmptyNode](n) || typeis[ReaderPosSetter](n)
+//@ lemma settable_repo(n parsley.Node)
+//@   requires typeis[*TerminalNode](n) || typeis[*NonTerminalNode](n) || typeis[NodeList](n)
+//@   ensures  typeis[ReaderPosSetter](n)
+
+//@ interface ast.ReaderPosSetter.SetReaderPos(n ReaderPosSetter, f func(parsley.Pos) parsley.Pos)
+//@   requires n != nil && f != nil && cloinv(f) && rpOK(n)
+//@   ensures  cloinv(f) && rpOK(n)
+//@   ensures  [others] othersKept()
+//@   ensures  [list-kept;C07] typeis[NodeList](n) ==> len(n.(NodeList)) == old(len(n.(NodeList)))
+//@   assigns  fields[parsley.Node](), elems[NodeList](), captures(f)
+
+//@ func SetReaderPos(node parsley.Node, f func(parsley.Pos) parsley.Pos) (r parsley.Node)
+//@   props C07,C10
+//@   requires node != nil && parsley.NodeOK(node) && within(node) && f != nil && cloinv(f)
+//@   ensures  [kind;C10] r != nil && (typeis[EmptyNode](node) ==> typeis[EmptyNode](r)) && (!typeis[EmptyNode](node) ==> same(r, node))
+//@   ensures  [ok] parsley.NodeOK(r) && within(r) && cloinv(f)
+//@   ensures  [others] othersKept()
+//@   ensures  [moved;C10] typeis[EmptyNode](node) ==> node.ReaderPos() <= r.ReaderPos()
+//@   assigns  fields[parsley.Node](), elems[NodeList](), captures(f)
+//@ callee f(pos parsley.Pos) (np parsley.Pos)
+//@   include ast.rpcallback
+
+//@ func (nl NodeList) SetReaderPos(f func(parsley.Pos) parsley.Pos)
+//@   props C07,C10
+//@   requires wfList(nl) && within(nl) && f != nil && cloinv(f)
+//@   ensures  wfList(nl) && within(nl) && cloinv(f)
+//@   ensures  [others] othersKept()
+//@   assigns  fields[parsley.Node](), elems[NodeList](), captures(f)
+//@   flag slow
+//@   assert_at entry [nalts] parsley.NAlts(parsley.Node(nl)) == len(nl)
+//@   assert_at entry [alts] forall k int :: 0 <= k && k < len(nl) ==> same(parsley.Alt(parsley.Node(nl), k), nl[k])
+//@ loop 1 (i rangeindex)
+//@   invariant 0 <= i && i <= len(nl) && cloinv(f)
+//@   invariant wfList(nl)
+//@   invariant [lo] forall k int :: 0 <= k && k < len(nl) ==> parsley.GhostLo <= nl[k].ReaderPos() && nl[k].ReaderPos() <= parsley.GhostHi
+//@   invariant [others] othersKept()
+//@ callee f(pos parsley.Pos) (np parsley.Pos)
+//@   include ast.rpcallback
